@@ -54,9 +54,36 @@ package vfs
 //@   trusted
 //@   tag ghost-pure
 //@   modifies nothing
+// Closing a descriptor drops the flock taken through it. The model has one flock flag
+// (the directory lock is the only flock in the code base), so closing any handle clears
+// it: coarse, but it can only make the lock discipline obligations harder to meet.
 //@ func (File).Close
 //@   trusted
-//@   tag ghost-pure
+//@   ghost flockHeld = false
+//@   modifies nothing
+//@ func (File).Sync
+//@   trusted
+//@   modifies nothing
+//@ func (File).Stat
+//@   trusted
+//@   modifies nothing
+//@ func (FS).Hostname
+//@   trusted
+//@   modifies nothing
+//@ func os::Getpid
+//@   trusted
+//@   modifies nothing
+// Unlinking through the os package directly is the same event as FS.Remove.
+//@ func os::Remove
+//@   trusted
+//@   ghost unlinkedWhileUnlocked = unlinkedWhileUnlocked || !flockHeld
+//@   modifies nothing
+// os.SameFile(handle info, path info) == true while the flock is held is the evidence
+// that the locked inode is the file currently named by the lock path.
+//@ ghost var lockFileVerified bool
+//@ func os::SameFile
+//@   trusted
+//@   ghost lockFileVerified = result && flockHeld
 //@   modifies nothing
 
 // File handles as byte streams (C13): avail(f) is the number of bytes from the handle's
